@@ -15,6 +15,8 @@ class SpyRunner(Runner):
         self.inner = inner
         self.rec = rec
         self.retention = retention     # RetentionObserver or None
+        if retention is not None:
+            retention.spy = self
         self.idle_waits = 0
 
     def submit_task(self, task: Task, task_name: str, use_cache: bool) -> None:
